@@ -304,7 +304,7 @@ func c02Run(t *testing.T, c *evid.Collector) {
 	kinds := kindsFromEnv(backends.All)
 	rapidRun(t, "random", evid.Scale(1800, 30000), func(rt *rapid.T) {
 		k := rapid.SampledFrom(kinds).Draw(rt, "backend")
-		auto := !k.IsSingle() && rapid.IntRange(0, 3).Draw(rt, "auto") == 0
+		auto := rapid.IntRange(0, 3).Draw(rt, "auto") == 0 // also on the single-bucket backends (their bucket exists; no other can be created)
 		mixed := rapid.Bool().Draw(rt, "mixed")
 		n := rapid.IntRange(5, 40).Draw(rt, "n")
 		cs := progCase{Backend: k, Opts: backends.Options{AutoBucket: auto}}
